@@ -133,6 +133,31 @@ theorem spec_dirs (x y : Int) :
   simp [specQ, specR, tdivQ, tdivR, fdivQ, fdivR]
 example : specQ 1 7 2 = 4 ∧ specR 1 7 2 = -1 := by decide
 
+/-! ## division by 2^cnt -/
+
+/-- mpz_fdiv_q_2exp (dir = -1) and mpz_cdiv_q_2exp (dir = 1): for every value and every bit count the
+    result is the floor resp. ceiling quotient by 2^cnt (limb offset, partial shift, the "round" flag built
+    from the skipped limbs and the shifted-out bits, and the carry of the +1 are all covered). -/
+theorem cfdiv_q_2exp_spec (dir : Int) (hdir : dir = -1 ∨ dir = 1) (s : Store) (w u cnt : Nat) :
+    cfdiv_q_2exp s w u cnt dir = s.set w (specQ dir (s u) ((2 ^ cnt : Nat) : Int)) :=
+  cfdiv_q_2exp_eq dir hdir s w u cnt
+example : fdiv_q_2exp exS 0 0 1 0 = -4 ∧ cdiv_q_2exp exS 2 0 70 2 = 0 ∧ fdiv_q_2exp exS 2 0 70 2 = -1 := by decide
+
+/-- mpz_fdiv_r_2exp and mpz_cdiv_r_2exp: the call never runs `MPN_INCR_U` off its limbs (the model's
+    `oob` outcome is unreachable) and stores the floor resp. ceiling remainder by 2^cnt. -/
+theorem cfdiv_r_2exp_spec (dir : Int) (hdir : dir = -1 ∨ dir = 1) (s : Store) (w u cnt : Nat) :
+    cfdiv_r_2exp s w u cnt dir = .ok (s.set w (specR dir (s u) ((2 ^ cnt : Nat) : Int))) :=
+  cfdiv_r_2exp_eq dir hdir s w u cnt
+example : (match fdiv_r_2exp exS 0 0 2 with | .ok s => s 0 | .error _ => 99) = 1 ∧
+          (match cdiv_r_2exp (fun _ => 7) 0 0 2 with | .ok s => s 0 | .error _ => 99) = -1 := by decide
+
+/-- mpz_tdiv_q_2exp and mpz_tdiv_r_2exp: truncating quotient and remainder by 2^cnt. -/
+theorem tdiv_q_2exp_spec (s : Store) (w u cnt : Nat) :
+    tdiv_q_2exp s w u cnt = s.set w (tdivQ (s u) ((2 ^ cnt : Nat) : Int)) := tdiv_q_2exp_eq s w u cnt
+theorem tdiv_r_2exp_spec (s : Store) (w u cnt : Nat) :
+    tdiv_r_2exp s w u cnt = s.set w (tdivR (s u) ((2 ^ cnt : Nat) : Int)) := tdiv_r_2exp_eq s w u cnt
+example : tdiv_q_2exp exS 0 0 1 0 = -3 ∧ tdiv_r_2exp exS 0 0 1 0 = -1 ∧ tdiv_r_2exp exS 2 0 64 2 = -7 := by decide
+
 /-! ## division by zero -/
 
 /-- every function of the family that divides raises DIVIDE_BY_ZERO for a zero divisor, before any
